@@ -22,6 +22,8 @@ def run_cases(cases, res, stratum):
                 x = A.mk(fx, np, s, nw, nf, [codes[0], codes[2], codes[1], codes[3]], shape=(2, 2), shifting=c['mode']).T
             if not arr and c.get('elem'):       # the operand is an element taken out of an array by indexing (its raw value is a NumPy scalar)
                 x = A.mk(fx, np, s, nw, nf, [codes[0], 0] if c['elem'] == 1 else [0, 0, codes[0]], shape=(2,) if c['elem'] == 1 else (3,), shifting=c['mode'])[0 if c['elem'] == 1 else 2]
+            if c.get('tmpl'):       # a format template for ARITHMETIC results sits in the operand's configuration (op_out_like): the shifts size their results by their own rule
+                x.config.op_out_like = fx.Fxp(None, dtype=c['tmpl'])
             nn = n
             if c.get('count') == 'np.int64': nn = np.int64(n)       # (the shift count as a NumPy integer, e.g. taken from np.arange)
             elif c.get('count') == 'np.uint8': nn = np.uint8(n)
@@ -127,7 +129,7 @@ def shard(shard, nshards, rng, tier, extra):
         def code():
             return rng.choice([lo, hi, 0, 1, -1 if s else 1, lo + 1, hi - 1, rng.randint(lo, hi), (rng.randint(lo, hi) >> rng.randint(0, 6)) << rng.randint(0, 6)])
         cs = [max(lo, min(hi, code())) for _ in range(k)]
-        cases.append({'f': [s, nw, nf], 'codes': cs, 'n': n, 'mode': rng.choice(MODES), 'count': rng.choice(['int', 'int', 'np.int64', 'np.uint8']), 'elem': rng.choice([0, 0, 1, 2]), 'layoutT': len(cs) == 4 and rng.random() < 0.7})
+        cases.append({'f': [s, nw, nf], 'codes': cs, 'n': n, 'mode': rng.choice(MODES), 'count': rng.choice(['int', 'int', 'np.int64', 'np.uint8']), 'elem': rng.choice([0, 0, 1, 2]), 'layoutT': len(cs) == 4 and rng.random() < 0.7, 'tmpl': rng.choice([None, None, None, 'fxp-s8/0', 'fxp-u12/6'])})
     run_cases(cases, res, 'B:boundary-random-to-32')
     # C: wider words (33..96) and large counts: the shifted code leaves int64 / uint64, object arrays of Python integers
     cases = []
@@ -141,7 +143,7 @@ def shard(shard, nshards, rng, tier, extra):
             return max(lo, min(hi, c))
         cs = [code() for _k in range(rng.choice([1, 1, 2, 3]))]
         if rng.random() < 0.08: cs = rng.choice([[lo], [hi], [lo, 0], [0, lo]])       # (codes with as many trailing zero bits as the word allows)
-        cases.append({'f': [s, nw, nf], 'codes': cs, 'n': n, 'mode': rng.choice(MODES), 'count': rng.choice(['int', 'int', 'np.int64', 'np.uint8']), 'elem': rng.choice([0, 0, 1, 2])})
+        cases.append({'f': [s, nw, nf], 'codes': cs, 'n': n, 'mode': rng.choice(MODES), 'count': rng.choice(['int', 'int', 'np.int64', 'np.uint8']), 'elem': rng.choice([0, 0, 1, 2]), 'tmpl': rng.choice([None, None, None, 'fxp-s8/0', 'fxp-u12/6'])})
     run_cases(cases, res, 'C:wide-words-large-counts')
     res.exhaustive = True
     return res
